@@ -18,7 +18,9 @@ RULE = (
     "(big) acyclic circuits up to 26 nodes / <= 8 startpoints: solve vs reference truth tables. "
     "Unknown assumption names must raise ValueError; type 'x' must be rejected by cnf. "
     "Non-trivial: circuit has a gate with fan-in >= 2 or a parity gate with fan-in >= 3 or a cycle "
-    "or a blackbox pin, and (for solve) A constrains a non-startpoint. Distinct by case digest."
+    "or a blackbox pin, and (for solve) A constrains a non-startpoint. Every case is judged twice on the same "
+    "Circuit object: as built, and after an in-place edit that keeps node and edge counts (one gate retyped), "
+    "so that answers cannot depend on what was asked before. Distinct by case digest."
 )
 ASSUMPTIONS = [
     "reference semantics cgv.refsim (consistent valuations by bit-parallel enumeration over all nodes)",
@@ -221,7 +223,39 @@ def _check_solve(c, order, okmask_fn, assume, where):
     return "sat"
 
 
+RETYPE = {"and": "nor", "nand": "or", "or": "xnor", "nor": "and", "xor": "nand", "xnor": "xor", "buf": "not", "not": "buf"}
+
+
 def check(case, ctx):
+    """Judge the case on the circuit as built, then once more on the SAME Circuit object after an
+    in-place edit that keeps node and edge counts (a gate retyped, an operand rewired): the
+    encoding must describe the circuit as it is now, whatever was asked about it before."""
+    res = _check_once(case, ctx, None)
+    if case.get("kind") in ("small", "big") and case.get("edit", True):
+        spec = case["spec"]
+        gates = [x for x in spec["nodes"] if x[1] in RETYPE and x[2]]
+        if gates:
+            import copy as _copy
+
+            k = (len(spec["nodes"]) * 7 + len(case.get("assume", []))) % len(gates)
+            spec2 = _copy.deepcopy(spec)
+            tgt = [x for x in spec2["nodes"] if x[0] == gates[k][0]][0]
+            tgt[1] = RETYPE[tgt[1]]
+            case2 = dict(case)
+            case2["spec"] = spec2
+            case2.pop("bogus", None)
+            c = res.pop("_circuit", None)
+            if c is not None:
+                r = lib(c.set_type, tgt[0], tgt[1])
+                if r.ok:
+                    res2 = _check_once(case2, ctx, c)
+                    res2.pop("_circuit", None)
+                    res["labels"] = list(res.get("labels", [])) + ["re-queried_after_in_place_edit"]
+    res.pop("_circuit", None)
+    return res
+
+
+def _check_once(case, ctx, prebuilt):
     if case["kind"] == "xtype":
         c = cg.Circuit()
         c.add("a", "input")
@@ -232,7 +266,7 @@ def check(case, ctx):
             raise Violation("cnf|xtype", f"cnf of a circuit with an 'x' node: {r.value if r.ok else r.text}")
         return {"nontrivial": False, "labels": ["xtype_rejected"]}
     spec = case["spec"]
-    c = specs.build(spec)
+    c = prebuilt if prebuilt is not None else specs.build(spec)
     if refsim.ref_lint(c):
         raise specs.SpecError(f"generator produced a non-lint-clean circuit: {refsim.ref_lint(c)[:3]}")
     labels, nontriv = _labels(c, spec)
@@ -290,7 +324,7 @@ def check(case, ctx):
         if refsim.has_cycle(c):
             # how many input valuations have 0 or >=2 stable states: only a label
             labels.append("cyclic_small")
-        return {"nontrivial": bool(nontriv and internal), "labels": labels}
+        return {"nontrivial": bool(nontriv and internal), "labels": labels, "_circuit": c}
 
     # big (or small that exceeded the bound): acyclic route via truth tables
     if refsim.has_cycle(c):
@@ -322,4 +356,4 @@ def check(case, ctx):
         A = [[n, bool((j >> i) & 1)] for i, n in enumerate(free)]
         _check_solve(c, order, oracle, A, "big/full-startpoint-assignment")
     internal = any(n not in startpoints for n, _ in assume)
-    return {"nontrivial": bool(nontriv and internal), "labels": labels}
+    return {"nontrivial": bool(nontriv and internal), "labels": labels, "_circuit": c}
